@@ -675,6 +675,64 @@ def stmts_in_order(node):
   return out
 
 
+def straightline_value(fn_node):
+  """value_of(expr): expr with every *straight-line local* replaced by its
+  definition.  A straight-line local occurs only in simple top-level
+  statements of the function body (plain assignments to a Name, the final
+  return, expression statements) - never inside a compound statement, a
+  nested function, a subscript / attribute store or an augmented assignment -
+  so each read sees exactly the assignment before it.  Rules that decide what
+  VALUE reaches a call read through this view; how many temporaries the value
+  passes through, and what they are called, does not matter."""
+  import copy as _copy
+  body = fn_node.body
+  compound = set()
+  for st in body:
+    simple = isinstance(st, (ast.Return, ast.Expr)) or (
+        isinstance(st, ast.Assign) and len(st.targets) == 1 and isinstance(
+            st.targets[0], ast.Name))
+    if not simple:
+      for n in ast.walk(st):
+        if isinstance(n, ast.Name):
+          compound.add(n.id)
+        elif isinstance(n, ast.arg):
+          compound.add(n.arg)
+    else:
+      for n in ast.walk(st):
+        if isinstance(n, (ast.Lambda, ast.ListComp, ast.SetComp, ast.DictComp,
+                          ast.GeneratorExp)):
+          for m in ast.walk(n):
+            if isinstance(m, ast.Name) and isinstance(m.ctx, ast.Store):
+              compound.add(m.id)
+  params = {a.arg for a in ast.walk(fn_node.args) if isinstance(a, ast.arg)}
+
+  class Sub(ast.NodeTransformer):
+    def __init__(self, env):
+      self.env = env
+
+    def visit_Name(self, n):
+      if isinstance(n.ctx, ast.Load) and n.id in self.env:
+        return _copy.deepcopy(self.env[n.id])
+      return n
+  env = {}
+  at = {}
+  for st in body:
+    at[id(st)] = dict(env)
+    if isinstance(st, ast.Assign) and len(st.targets) == 1 and isinstance(
+        st.targets[0], ast.Name):
+      nm = st.targets[0].id
+      if nm in compound or nm in params:
+        env.pop(nm, None)
+        continue
+      env[nm] = Sub(env).visit(_copy.deepcopy(st.value))
+  final = dict(env)
+
+  def value_of(expr, stmt=None):
+    e = at.get(id(stmt), final) if stmt is not None else final
+    return Sub(e).visit(_copy.deepcopy(expr))
+  return value_of
+
+
 def expand_aug(st):
   """`x op= y` as the equivalent `x = x op y` statement (a synthesised
   ast.Assign with the position of the original); other statements are
